@@ -60,6 +60,13 @@ func TestExh_C16(t *testing.T) {
 		[]Action{{Op: "start", Script: sc("healthy")}, {Op: "wait"}, {Op: "drop"}, {Op: "wait"}},
 		[]Action{{Op: "start", Script: sc("unreachable")}, {Op: "wait"}, {Op: "stop"}},
 	)
+	// every way of being unreachable, with context.Background() and with a deadline
+	for _, how := range unreachableWays {
+		for _, ctxMs := range []int{0, 200} {
+			directed = append(directed, []Action{{Op: "start", Script: &Script{Kind: "unreachable", How: how, CtxMs: ctxMs}}, {Op: "wait"}, {Op: "stop"},
+				{Op: "start", Script: &Script{Kind: "unreachable", How: how, CtxMs: ctxMs, Fast: true}}})
+		}
+	}
 	if !ev.Known(knownD10) {
 		directed = append(directed,
 			[]Action{{Op: "start", Script: sc("refused")}, {Op: "wait"}},
@@ -110,6 +117,9 @@ func TestExh_C16(t *testing.T) {
 		run(C16Case{Plugin: "shutdown", LingerMs: 700, Actions: []Action{{Op: "start", Script: rawSends(Send{"before-end", "shutdown"})}, {Op: "drop"}}})
 		run(C16Case{Plugin: "shutdown", LingerMs: 1300, Actions: []Action{{Op: "start", Script: rawSends(Send{"after-sync", "configure"}, Send{"after-probe", "shutdown"}, Send{"after-probe", "synchronize"},
 			Send{"before-end", "unknown-event"}, Send{"before-end", "unknown-method"})}, {Op: "probe"}, {Op: "restart", Script: sc("healthy")}, {Op: "probe"}}})
+		// a second, third and fourth Configure on one connection: each is answered (D25)
+		run(C16Case{Plugin: "all", Actions: []Action{{Op: "start", Script: rawSends(Send{"after-sync", "configure"}, Send{"after-probe", "configure"}, Send{"after-probe", "configure"})}, {Op: "probe"}, {Op: "drop"}}})
+		run(C16Case{Plugin: "nocfg", Actions: []Action{{Op: "start", Script: rawSends(Send{"after-probe", "configure"}, Send{"before-end", "configure"}, Send{"before-end", "configure"})}, {Op: "probe"}, {Op: "stop"}}})
 		if ev.Thorough() {
 			for _, pt := range pluginTypes {
 				for _, at := range []string{"after-sync", "after-probe", "before-end"} {
@@ -149,6 +159,9 @@ func TestExh_C16(t *testing.T) {
 					hi = h.r2sAtCfg + 16
 				}
 				for k := int64(0); k <= hi; k++ {
+					if !ev.Thorough() && k%2 == 1 && k < h.r2sAtCfg-4 {
+						continue // quick: every second offset, every one around the end of the Configure request
+					}
 					run(C16Case{Plugin: pt, Actions: []Action{{Op: "start", Script: &Script{Kind: "cut", Dir: dirNames[d], K: int(k)}}}})
 				}
 			}
@@ -162,10 +175,20 @@ func TestExh_C16(t *testing.T) {
 			return &Script{Kind: "raw", RegMs: reg, ReqMs: req, DoSync: true, Activate: true, Sync: sync}
 		}
 		quiet := func(kind string) Action { return Action{Op: "start", Script: &Script{Kind: kind}} }
-		for _, reg := range []int64{0, -5, 1, 300} {
+		for _, reg := range []int64{1, 300} {
 			for _, sync := range []bool{false, true} {
 				run(C16Case{Actions: []Action{{Op: "start", Script: raw(reg, reg, sync)}, {Op: "probe"}, {Op: "stop"}, quiet("silent"), quiet("noconfigure"), {Op: "wait"}}})
 				run(C16Case{Actions: []Action{{Op: "start", Script: raw(reg, 2000, sync)}, {Op: "drop"}, quiet("noconfigure"), quiet("silent")}})
+			}
+		}
+		// a runtime that sends no timeouts (0) or negative ones leaves the stub's own in place
+		// (D22): a healthy restart works like after any other session, and with a short timeout
+		// stored before, silent runtime ends are still given up on after that short time
+		for _, reg := range []int64{0, -5} {
+			for _, sync := range []bool{false, true} {
+				run(C16Case{Actions: []Action{{Op: "start", Script: raw(reg, reg, sync)}, {Op: "probe"}, {Op: "stop"}, {Op: "start", Script: sc("healthy")}, {Op: "probe"}, {Op: "drop"}}})
+				run(C16Case{Actions: []Action{{Op: "start", Script: raw(300, 300, false)}, {Op: "stop"}, {Op: "start", Script: raw(reg, 0, sync)}, {Op: "drop"},
+					quiet("noconfigure"), quiet("silent"), {Op: "wait"}}})
 			}
 		}
 		// a plugin whose Configure handler outlasts the stored timeout: Start gives up, and the
